@@ -11,7 +11,7 @@ Ev == Trace[l]
 Is(e) == l <= Len(Trace) /\ Ev.ev = e /\ l' = l + 1
 ToSet(s) == { s[k] : k \in DOMAIN s }
 ToChecks(s) == { <<s[k][1], s[k][2]>> : k \in DOMAIN s }
-FKSet(s) == { <<s[k][1], s[k][2], s[k][3]>> : k \in DOMAIN s }
+FKSet(s) == { <<s[k][1], s[k][2], s[k][3], s[k][4]>> : k \in DOMAIN s }
 
 TInit == /\ Start({}, {}) /\ l = 1 /\ viol = {} /\ cid = 0 /\ want = [tables |-> {}, fks |-> {}] /\ req = "none" /\ scope = "" /\ dead = FALSE
 Reset == /\ Is("reset")
@@ -33,11 +33,12 @@ Consume(act, name) ==
   ELSE /\ Flag(name) /\ dead' = TRUE /\ UNCHANGED cvars
 TCreate == /\ Is("create") /\ Consume(CreateTable(Ev.t, FKSet(Ev.inline)), "CreateRejected")
            /\ UNCHANGED <<cid, want, req, scope>>
-TAddFK  == /\ Is("addfk") /\ Consume(AddFK(Ev.t, Ev.p, Ev.n), "AddFKRejected") /\ UNCHANGED <<cid, want, req, scope>>
+TAddFK  == /\ Is("addfk") /\ Consume(AddFK(Ev.t, Ev.p, Ev.n, Ev.d), "AddFKRejected") /\ UNCHANGED <<cid, want, req, scope>>
 TDropFK == /\ Is("dropfk") /\ Consume(DropFK(Ev.t, Ev.n), "DropFKRejected") /\ UNCHANGED <<cid, want, req, scope>>
 TDrop   == /\ Is("drop") /\ Consume(DropTable(Ev.t), "DropRejected") /\ UNCHANGED <<cid, want, req, scope>>
 TAddChk == /\ Is("addcheck") /\ Consume(AddCheck(Ev.t, Ev.n), "AddCheckRejected") /\ UNCHANGED <<cid, want, req, scope>>
 TDropChk == /\ Is("dropcheck") /\ Consume(DropCheck(Ev.t, Ev.n), "DropCheckRejected") /\ UNCHANGED <<cid, want, req, scope>>
+TAddIdx == /\ Is("addindex") /\ Consume(AddIndex(Ev.t, Ev.k), "AddIndexRejected") /\ UNCHANGED <<cid, want, req, scope>>
 TOther  == /\ Is("other") /\ Consume(Other(Ev.t), "OtherOnMissingTable") /\ UNCHANGED <<cid, want, req, scope>>
 \* C16: a statement checked for its qualifiers only
 TQual   == /\ Is("qstmt")
@@ -59,7 +60,7 @@ TEnd == /\ Is("end")
                   \cup (IF Once THEN {} ELSE {<<cid, "NotExactlyOnce", l>>})
                   \cup (IF Ev.mustreject THEN {<<cid, "CrossSchemaChangesPlanned", l>>} ELSE {})
         /\ UNCHANGED <<cvars, cid, want, req, scope, dead>>
-TStep == Reset \/ TQual \/ TAddChk \/ TDropChk \/ TCreate \/ TAddFK \/ TDropFK \/ TDrop \/ TOther \/ TSchema \/ TReject \/ TEnd
+TStep == Reset \/ TQual \/ TAddChk \/ TDropChk \/ TCreate \/ TAddFK \/ TDropFK \/ TDrop \/ TAddIdx \/ TOther \/ TSchema \/ TReject \/ TEnd
 TNext == /\ TStep
          /\ (l' = Len(Trace) + 1) => PrintT(<<"VIOLS", ToJson(viol')>>)
 TSpec == TInit /\ [][TNext]_tvars
